@@ -123,7 +123,9 @@ def make_spec(w, tag, desc, basis, rows, mw, unit_reactant=False):
     for ID, ph in desc['nu']:
         if ID == desc['reactant']:
             r = (ph, ID)
-            nu[ph, ID] = -1. if unit_reactant else w.real(f'{tag}.nu.{ID}', hi=0., hi_strict=True)
+            nu[ph, ID] = w.real(f'{tag}.nu.{ID}', hi=0., hi_strict=True)
+            if unit_reactant:       # written per unit of reactant; kept as a leaf so that all arithmetic stays exact (A-real)
+                w.assume(w.eq(nu[ph, ID], -1.))
         else:
             nu[ph, ID] = w.real(f'{tag}.nu.{ID}')
     X = w.real(f'{tag}.X', lo=0., hi=1.)
@@ -242,6 +244,37 @@ def sparse_pattern(cfgprog, pkg, tagged):
     return pat
 
 
+class _Scaled:
+    """The world with a NATIVE equality tolerance that follows the conditioning of the update (floats are not reals:
+    a path model with flows ~1e13 and coefficients ~1e14 cancels catastrophically).  Symbolically `eq` stays exact."""
+    def __init__(self, w):
+        self.__dict__['_w'] = w
+        self.__dict__['scale'] = 0.
+
+    def __getattr__(self, n): return getattr(self._w, n)
+
+    def __setattr__(self, n, v): self.__dict__[n] = v
+
+    def eq(self, a, b):
+        w = self._w
+        if w.symbolic or isinstance(a, (str, type(None))) or isinstance(b, (str, type(None))):
+            return w.eq(a, b)
+        a = float(a); b = float(b)
+        return abs(a - b) <= 1e-9 + 1e-7 * max(abs(a), abs(b), self.scale)
+
+    def Implies(self, a, b): return self.Or(self.Not(a), b)
+
+
+def set_scale(w, prog, u, rows, mw):
+    if w.symbolic: return
+    s = sum(abs(float(v)) for v in u.values())
+    for sp in all_specs(prog):
+        s *= 1. + sum(abs(float(v)) for v in sp.nu.values()) / abs(float(sp.nu[sp.r]))
+    s *= max(mw.values()) / min(mw.values())
+    s *= 1. + max(float(v) for c in rows.values() for v in c.values())
+    w.scale = s
+
+
 def row_total(c, state, mw=None):
     """sum_k c_k * state_k (state in mol), or with mw given state in mass units."""
     return sum([(c[ID] / mw[ID] if mw else c[ID]) * v for (ph, ID), v in state.items() if ID in c], 0.)
@@ -342,6 +375,7 @@ def kernel_configs(tier):
 def kernel(w, cfg):
     """_reaction / _conversion on a bare sparse vector (phase-less) or sparse array (phase-tagged): exact algebra."""
     W.reset_caches()
+    w = _Scaled(w)
     tagged = cfg['tagged']
     chems = W.thermo(P3).chemicals
     mw = _mw(P3)
@@ -350,6 +384,7 @@ def kernel(w, cfg):
     mat, read, feed, _ = make_material(w, 'sv', 'P3', tagged)
     pre = snapshot_rxn(obj)
     expected = spec_apply(prog, feed)
+    set_scale(w, prog, feed, rows, mw)
     if cfg['fn'] == '_reaction':
         obj._reaction(mat)
         got = read()
@@ -417,6 +452,7 @@ def call(w, cfg):
     """reaction(material): stoichiometric update, conservation, no negative flow on normal return, InfeasibleRegion only
     when a flow would be negative; streams (same / other package), MultiStreams, sparse data, ndarrays, mass views."""
     W.reset_caches()
+    w = _Scaled(w)
     tagged, basis, kind, pkg = cfg['tagged'], cfg['basis'], cfg['mat'], cfg['pkg']
     IDs = PKG[pkg]
     chems = W.thermo(P3).chemicals
@@ -431,6 +467,7 @@ def call(w, cfg):
     stream_by_mass = (kind == 's' and basis == 'wt') or kind == 'massview'
     u = _array_units(feed, mw, stream_by_mass)
     e = spec_apply(prog, u)
+    set_scale(w, prog, u, rows, mw)
     try:
         obj(mat)
         outcome = 'ok'
@@ -495,6 +532,7 @@ def force_reaction(w, cfg):
     """force_reaction ignores feasibility (negative flows may remain) but must still be the stoichiometric update; the only
     licence is to zero *negligible* negatives (|e| <= 1e-16 * max(sum|e|, 1))."""
     W.reset_caches()
+    w = _Scaled(w)
     tagged, basis, kind, pkg = cfg['tagged'], cfg['basis'], cfg['mat'], cfg['pkg']
     IDs = PKG[pkg]
     chems = W.thermo(P3).chemicals
@@ -507,6 +545,7 @@ def force_reaction(w, cfg):
     stream_by_mass = kind == 's' and basis == 'wt'
     u = _array_units(feed, mw, stream_by_mass)
     e = spec_apply(prog, u)
+    set_scale(w, prog, u, rows, mw)
     obj.force_reaction(mat)
     got = read()
     gu = _array_units(got, mw, stream_by_mass)
@@ -573,6 +612,7 @@ def basis(w, cfg):
     """A reaction and its copy on the other basis give the same stream; making the copy does not change the original;
     converting back gives the original stoichiometry."""
     W.reset_caches()
+    w = _Scaled(w)
     tagged, pkg = cfg['tagged'], cfg['pkg']
     b0, b1 = cfg['dir'].split('->')
     IDs = PKG[pkg]
@@ -590,6 +630,7 @@ def basis(w, cfg):
     s2, read2, _, _ = make_material(w, 's', pkg, tagged, values=feed, pattern=pattern)
     u = _array_units(feed, mw, b0 == 'wt')
     e = spec_apply(prog, u)          # expected flows in the units of the original basis (same sign as in mol)
+    set_scale(w, prog, u, rows, mw)
     outcomes = []
     for o, s in ((obj, s1), (obj2, s2)):
         try:
@@ -612,3 +653,169 @@ def basis(w, cfg):
     else:
         w.ensure('InfeasibleRegion only if a flow would be negative', negative)
         w.canary('canary: never infeasible', False)
+
+
+# --------------------------------------------------------------------------- 5. parsers: string form -> the written coefficients
+
+PARSE_CASES = [
+    # (text, reactant argument, written coefficients {(phase|None, ID): nu}, expected reactant)
+    ('Water + 2Ethanol -> 1.5Methanol', 'Ethanol', {(None, 'Water'): -1., (None, 'Ethanol'): -2., (None, 'Methanol'): 1.5}, 'Ethanol'),
+    ('0.5 Water -> 0.25 Ethanol + 1e-1 Methanol', None, {(None, 'Water'): -.5, (None, 'Ethanol'): .25, (None, 'Methanol'): .1}, 'Water'),
+    ('2.5e-1Water + Ethanol -> 3Methanol', 'Water', {(None, 'Water'): -.25, (None, 'Ethanol'): -1., (None, 'Methanol'): 3.}, 'Water'),
+    ('Methanol -> Water', None, {(None, 'Methanol'): -1., (None, 'Water'): 1.}, 'Methanol'),
+    ('Water,l + 2Ethanol,g -> 1.5Methanol,g', 'Ethanol', {('l', 'Water'): -1., ('g', 'Ethanol'): -2., ('g', 'Methanol'): 1.5}, 'Ethanol'),
+    ('2Water,l -> 2Ethanol,g + 0.5 Methanol,g', None, {('l', 'Water'): -2., ('g', 'Ethanol'): 2., ('g', 'Methanol'): .5}, 'Water'),
+    ('0.125Methanol,g -> Methanol,l', 'Methanol', {('g', 'Methanol'): -.125, ('l', 'Methanol'): None}, 'Methanol'),   # same chemical twice: ValueError
+]
+
+
+def parse_configs(tier):
+    return [{'name': f'case{n}: {t[0]}', 'case': n} for n, t in enumerate(PARSE_CASES)]
+
+
+@group('C05/parse', configs=parse_configs, l0=True,
+       functions=['thermosteam.reaction._parse:get_stoichiometric_array', 'thermosteam.reaction._parse:str2dct',
+                  'thermosteam.reaction._xparse:get_stoichiometric_array', 'thermosteam.reaction._xparse:str2dct',
+                  'thermosteam.reaction._xparse:get_phases', 'thermosteam.reaction._reaction:Reaction.__init__',
+                  'thermosteam.reaction._reaction:Reaction._rescale'])
+def parse(w, cfg):
+    """The string form gives the sparse vector/array of the written coefficients; Reaction scales it per unit of reactant
+    and reacts accordingly (dict forms with symbolic coefficients are what every other group uses)."""
+    from thermosteam.reaction import _parse as prs, _xparse as xprs
+    W.reset_caches()
+    text, reactant, written, exp_reactant = PARSE_CASES[cfg['case']]
+    chems = W.thermo(P3).chemicals
+    tagged = ',' in text
+    phases = PH if tagged else (None,)
+    if any(v is None for v in written.values()):
+        try:
+            tmo.Reaction(text, reactant=reactant, chemicals=chems)
+            w.ensure('a chemical written twice is refused', False)
+        except ValueError:
+            w.ensure('a chemical written twice is refused', True)
+        w.canary('canary', False)
+        return
+    if tagged:
+        w.ensure('phases found in the text', xprs.get_phases(text) == PH)
+        arr = xprs.get_stoichiometric_array(text, PH, chems)
+        rws = arr.rows
+    else:
+        w.ensure('no phases found in the text', xprs.get_phases(text) == ())
+        rws = [prs.get_stoichiometric_array(text, chems)]
+    for i, ph in enumerate(phases):
+        for j, ID in enumerate(P3):
+            w.ensure(f'parsed[{ph},{ID}] = written coefficient', w.eq(rws[i].dct.get(j, 0.), written.get((ph, ID), 0.)))
+    X = w.real('X', lo=0., hi=1.)
+    rxn = tmo.Reaction(text, reactant=reactant, X=X, chemicals=chems)
+    r = [k for k in written if k[1] == exp_reactant][0]
+    w.ensure('reactant', rxn.reactant == ((r[0], r[1]) if tagged else r[1]))
+    st = rxn.stoichiometry
+    srows = st.rows if tagged else [st]
+    for i, ph in enumerate(phases):
+        for j, ID in enumerate(P3):
+            w.ensure(f'stoichiometry[{ph},{ID}] = written / |nu_r|', w.eq(srows[i].dct.get(j, 0.), written.get((ph, ID), 0.) / -written[r]))
+    mat, read, feed, _ = make_material(w, 'sv', 'P3', tagged)
+    sp = Spec(written, r, X, 'mol')
+    expected = spec_single(sp, feed)
+    rxn._reaction(mat)
+    got = read()
+    for k in feed:
+        w.ensure(f'flow[{k[0]},{k[1]}] = stoichiometric update', w.eq(got[k], expected[k]))
+    w.canary('canary: reactant consumed = X * feed + 1', w.eq(feed[r] - got[r], X * feed[r] + 1))
+
+
+# --------------------------------------------------------------------------- 6. Reaction.reset_chemicals
+
+def reset_configs(tier):
+    out = []
+    for tagged in (False, True):
+        for pname in ('single3[Water]', 'single3[Ethanol]', 'single2[Methanol>Water]'):
+            out.append({'name': f'{"tagged" if tagged else "plain"};{pname};to=Q4', 'tagged': tagged, 'prog': programs(tier, tagged)[pname]})
+    return out
+
+
+@group('C05/reset_chemicals', configs=reset_configs, l0=True,
+       functions=['thermosteam.reaction._reaction:Reaction.reset_chemicals', 'thermosteam.reaction._reaction:Reaction.__call__'])
+def reset_chemicals(w, cfg):
+    """A reaction moved to another package (reordered superset) still is the same reaction, chemical by chemical."""
+    W.reset_caches()
+    w = _Scaled(w)
+    tagged = cfg['tagged']
+    chems = W.thermo(P3).chemicals
+    new = W.thermo(Q4).chemicals
+    mw = _mw(Q4)
+    rows = weights(w, Q4)
+    prog, obj = make_program(w, cfg['prog'], 'mol', rows, mw, chems, tagged)
+    obj.reset_chemicals(new)
+    w.ensure('reaction is on the new package', obj.chemicals is new)
+    sp = prog['specs'][0]
+    w.ensure('reactant kept', obj.reactant == ((sp.r[0], sp.r[1]) if tagged else sp.r[1]))
+    pattern = sparse_pattern(cfg['prog'], 'Q4', tagged)
+    mat, read, feed, stream = make_material(w, 's', 'Q4', tagged, pattern=pattern)
+    e = spec_apply(prog, feed)
+    set_scale(w, prog, feed, rows, mw)
+    try:
+        obj(mat)
+    except InfeasibleRegion:
+        w.ensure('InfeasibleRegion only if a flow would be negative', w.Or(*[w.lt(e[k], 0.) for k in e]))
+        return
+    got = read()
+    for k in e:
+        w.ensure(f'flow[{k[0]},{k[1]}] = stoichiometric update (round-off negatives >= -1e-12 zeroed)',
+                 w.Or(w.eq(got[k], e[k]), w.And(w.lt(e[k], 0.), w.ge(e[k], -TOL), w.eq(got[k], 0.))))
+    feasible = w.And(*[w.ge(e[k], 0.) for k in e])
+    for name, c in rows.items():
+        w.ensure(f'{name} conserved', w.Implies(feasible, w.eq(row_total(c, got), row_total(c, feed))))
+    w.canary('canary: reactant consumed = X * feed + 1', w.eq(feed[sp.r] - got[sp.r], sp.X * feed[sp.r] + 1))
+
+
+# --------------------------------------------------------------------------- 7. phase-less reaction, multi-phase stream
+
+def multiphase_configs(tier):
+    out = []
+    for pname in ('single3[Water]', 'single2[Water>Ethanol]', 'parallel[a>b|b>c]', 'series[a>b;b>c]'):
+        for basis in ('mol', 'wt'):
+            if tier == 'quick' and basis == 'wt' and pname != 'single3[Water]': continue
+            prog = programs(tier, False)[pname]
+            out.append({'name': f'{pname};{basis}', 'prog': prog, 'basis': basis, 'unit': _n_rxns(prog) >= 2})
+    return out
+
+
+@group('C05/phaseless_on_multistream', configs=multiphase_configs, l0=True,
+       functions=['thermosteam.reaction._reaction:as_material_array', 'thermosteam.reaction._reaction:Reaction.__call__'])
+def phaseless_on_multistream(w, cfg):
+    """A reaction without phases is documented for single-phase streams.  Handed a MultiStream it may refuse (ValueError);
+    if it returns normally the property's sentences hold for the totals over the phases."""
+    W.reset_caches()
+    w = _Scaled(w)
+    chems = W.thermo(P3).chemicals
+    mw = _mw(P3)
+    rows = weights(w, P3)
+    prog, obj = make_program(w, cfg['prog'], cfg['basis'], rows, mw, chems, False, unit_reactant=cfg['unit'])
+    pat = {'default': 'zero', ('g', 'Water'): 'pos', ('l', 'Water'): 'pos', ('l', 'Ethanol'): 'maybe', ('g', 'Methanol'): 'maybe'}
+    ms, read, feed, _ = make_material(w, 's', 'P3', True, pattern=pat)
+    tot = lambda st: {(None, ID): sum([st[ph, ID] for ph in PH], 0.) for ID in P3}
+    by_mass = cfg['basis'] == 'wt'
+    u = _array_units(tot(feed), mw, by_mass)
+    e = spec_apply(prog, u)
+    set_scale(w, prog, u, rows, mw)
+    try:
+        obj(ms)
+    except ValueError:
+        w.ensure('refused: stream unchanged', w.And(*[w.eq(v, feed[k]) for k, v in read().items()]))
+        w.canary('canary: never refused', False)
+        return
+    except InfeasibleRegion:
+        w.ensure('InfeasibleRegion only if a flow would be negative', w.Or(*[w.lt(e[k], 0.) for k in e]))
+        return
+    got = read()
+    gu = _array_units(tot(got), mw, by_mass)
+    w.ensure('no negative flow on normal return', w.And(*[w.ge(v, 0.) for v in got.values()]))
+    for k in e:
+        w.ensure(f'total flow[{k[1]}] = stoichiometric update (round-off negatives >= -1e-12 zeroed)',
+                 w.Or(w.eq(gu[k], e[k]), w.And(w.lt(e[k], 0.), w.ge(e[k], -2 * TOL), w.le(gu[k], 2 * TOL))))
+    feasible = w.And(*[w.ge(e[k], 0.) for k in e])
+    for name, c in rows.items():
+        w.ensure(f'{name} conserved', w.Implies(feasible, w.eq(row_total(c, gu, mw if by_mass else None), row_total(c, u, mw if by_mass else None))))
+    sp0 = all_specs(prog)[0]
+    w.canary('canary: reactant consumed = X * feed + 1', w.eq(u[sp0.r] - gu[sp0.r], sp0.X * u[sp0.r] + 1))
